@@ -92,13 +92,14 @@ def run_tmpl(outdir, repo=REPO):
 
 def ensure(config="quick", verbose=True):
     """Returns (facts_dir, info). Extracts when the tree/driver hash is new."""
-    os.makedirs(CACHE, exist_ok=True)
-    lock = open(os.path.join(CACHE, "lock"), "w")
+    os.makedirs(os.path.join(CACHE, "locks"), exist_ok=True)
+    if not os.path.exists(DRIVER):
+        raise SystemExit("mirfacts driver not built: run MANIFEST.setup_cmd")
+    th = tree_hash()
+    # one lock per fact base: different trees (self-test variants) extract in parallel
+    lock = open(os.path.join(CACHE, "locks", th + "-" + config), "w")
     fcntl.flock(lock, fcntl.LOCK_EX)
     try:
-        if not os.path.exists(DRIVER):
-            raise SystemExit("mirfacts driver not built: run MANIFEST.setup_cmd")
-        th = tree_hash()
         d = os.path.join(CACHE, "facts", th + "-" + config)
         marker = os.path.join(d, "OK")
         info = {"tree_hash": th, "config": config, "reused": True}
@@ -134,11 +135,30 @@ def ensure(config="quick", verbose=True):
         info["tmpl_ok"] = tok
         if not tok:
             info["tmpl_log"] = tlog[-2000:]
-        # prune old caches (keep 30 newest)
+        # prune old caches: keep the 40 most recently used; facts of scratch copies (VERIF_REPO set: self-test variants) are
+        # evicted before facts of /repo itself
         root = os.path.join(CACHE, "facts")
-        olds = sorted((os.path.getmtime(os.path.join(root, x)), x) for x in os.listdir(root))
-        for _, x in olds[:-30]:
-            shutil.rmtree(os.path.join(root, x), ignore_errors=True)
+        if not os.environ.get("VERIF_REPO"):
+            open(os.path.join(d, ".base"), "w").close()
+        glock = open(os.path.join(CACHE, "lock"), "w")
+        fcntl.flock(glock, fcntl.LOCK_EX)
+        try:
+            olds = []
+            for x in os.listdir(root):
+                try:
+                    olds.append((os.path.exists(os.path.join(root, x, ".base")), os.path.getmtime(os.path.join(root, x)), x))
+                except OSError:
+                    pass
+            for _, _, x in sorted(olds)[:-40]:
+                if x != th + "-" + config and os.path.exists(os.path.join(root, x, "OK")):
+                    shutil.rmtree(os.path.join(root, x), ignore_errors=True)
+                    try:
+                        os.remove(os.path.join(CACHE, "locks", x))
+                    except OSError:
+                        pass
+        finally:
+            fcntl.flock(glock, fcntl.LOCK_UN)
+            glock.close()
         json.dump(info, open(marker, "w"))
         return d, info
     finally:
